@@ -53,6 +53,24 @@ Proof.
     lia.
 Qed.
 
+Lemma dleft_antitone : forall c m m', m <= m' -> dleft c m' <= dleft c m.
+Proof.
+  intros c m m' H. unfold dleft.
+  destruct (mpwp_max c <=? m') eqn:E1; [lia|].
+  destruct (mpwp_max c <=? m) eqn:E2; [apply Nat.leb_le in E2; apply Nat.leb_gt in E1; lia|].
+  assert (Nat.log2 m <= Nat.log2 m') by (apply Nat.log2_le_mono; exact H). lia.
+Qed.
+
+Lemma dleft_step_round : forall c m r, 1 <= m -> m < mpwp_max c ->
+  S (dleft c ((if mpwp_max c <? 2 * m then mpwp_max c else 2 * m) + r)) <= dleft c m.
+Proof.
+  intros c m r Hm Hlt. pose proof (dleft_step c m Hm Hlt) as H.
+  pose proof (dleft_antitone c (if mpwp_max c <? 2 * m then mpwp_max c else 2 * m)
+                ((if mpwp_max c <? 2 * m then mpwp_max c else 2 * m) + r)) as H2.
+  assert (H3 : (if mpwp_max c <? 2 * m then mpwp_max c else 2 * m) <= (if mpwp_max c <? 2 * m then mpwp_max c else 2 * m) + r) by lia.
+  specialize (H2 H3). lia.
+Qed.
+
 Lemma ileft_step : forall g cur, 1 <= cur -> 2 * cur <= in_prec g -> S (ileft g (2 * cur)) <= ileft g cur.
 Proof.
   intros g cur Hc Hle. unfold ileft.
@@ -140,7 +158,7 @@ Proof.
     unfold ustep; simpl.
     destruct (negb cmp && (m <? mpwp_max c)) eqn:Hgo; simpl.
     + assert (Hlt : m < mpwp_max c) by ul.
-      pose proof (dleft_step c m Hmp Hlt) as Hd.
+      pose proof (dleft_step_round c m (o_round a) Hmp Hlt) as Hd.
       destruct (mpwp_max c <? m + (m + 0)) eqn:E2; simpl in *.
       * rewrite E2 in Hd.
         pose proof (mul_step _ _ (Cc c) Hd) as Hmul.
